@@ -131,12 +131,14 @@ def handleSpecial (stream : String) (args : List String) : String :=
       | .err _ _ => "ok"     -- the live handler's `Err` (failed send, rejected DCEP) is "returned", like `Ok`
       | .panic s => if s = "hang" then "hang" else "panic"
     | none => "bad-hex"
-  | "sctpassoc", role :: _seed :: pks =>
+  | "sctpassoc", role :: seedT :: pks =>
     match pks.mapM parseSctpPkt with
     | some ps =>
       -- role: bit 0 = client (own INIT sent, T1 running); bit 1 = the association starts Closed (as left by a dropped runner)
       let st0 := if role = "2" ∨ role = "3" then 2 else 0
-      let s0 : SctpSt.St := if role = "1" ∨ role = "3" then { t1 := 1, hasTag := true, state := st0 } else { state := st0 }
+      let seed := seedT.toNat?.getD 0
+      let s0 : SctpSt.St := if role = "1" ∨ role = "3" then { t1 := 1, hasTag := true, state := st0, seed := seed, nextTsn := seed }
+                            else { state := st0, seed := seed }
       match SctpSt.runHistory s0 ps (Buf.ofList []) 0 with
       | .ok ds _ _ => "ok " ++ " ".intercalate (ds.map fun d => "/".intercalate (d.map nats))
       | .err e _ => "err " ++ e
